@@ -40,7 +40,8 @@ Inner1 == {<<F(rs, Cap(q))>> : rs \in {<<>>, <<"fileout">>}, q \in SeqsOf(Fs({<<
 CapForms == {F(rs, Cap(q)) : rs \in (IF Level >= 2 THEN {<<>>, <<"fileout">>, <<"close">>} ELSE {<<>>, <<"fileout">>}), q \in Inner0 \cup Inner1}
 Shapes ==
        SeqsOf(Fs(IF Level >= 2 THEN RedirLists2 ELSE RedirLists1, Leaf), 1)                              \* one form, <= 2 redirections
-  \cup (IF MaxForms >= 2 THEN SeqsOf(Fs(IF Level >= 2 THEN RedirLists1 ELSE RedirLists0 \cup {<<"dupbad">>}, Leaf), 2) ELSE {})
+  \cup (IF MaxForms >= 2 THEN SeqsOf(Fs(IF Level >= 2 THEN RedirLists0 \cup {<<"dupbad">>, <<"filein">>, <<"fileout", "filefail">>, <<"fileout", "fileout">>}
+                                                       ELSE RedirLists0 \cup {<<"dupbad">>}, Leaf), 2) ELSE {})
   \cup (IF MaxForms >= 3 THEN SeqsOf(Fs(IF Level >= 2 THEN RedirLists0 ELSE {<<>>}, Leaf3), 3) ELSE {})   \* a failing stage at each position
   \cup {<<f>> : f \in CapForms}
   \cup {<<F(<<>>, B("ok")), f>> : f \in CapForms}
